@@ -85,6 +85,10 @@ CASES += [
  ("C09sim", "knn/item.py", "        order = torch.argsort(cols)\n        cols = cols[order]\n        vals = vals[order]", "        order = torch.argsort(cols)\n        vals = vals[order]\n        cols = cols[order]", "keep"),
  ("C09sim", "knn/item.py", "        c, cs, vs = _sim_row(i, matrix, matrix[i], min_sim, max_nbrs)", "        c, cs, vs = _sim_row(i, matrix, matrix[i - 1], min_sim, max_nbrs)", "break"),
  ("C09sim", "knn/item.py", "    sim = torch.mv(matrix, row.to(torch.float64))", "    sim = torch.mv(matrix, row)", "keep"),
+ ("C09sim", "knn/item.py", "        end = min(start + block_size, nitems)", "        end = min(start + block_size, nitems - 1)", "break"),
+ ("C09sim", "knn/item.py", "    counts = [torch.tensor([0], dtype=torch.int32)]\n    columns = []", "    counts = []\n    columns = []", "break"),
+ ("C09sim", "knn/item.py", "        counts[i - start] = c\n        columns.append(cs)", "        columns.append(cs)\n        counts[i - start] = c", "keep"),
+ ("C09sim", "knn/item.py", "        counts[i - start] = c\n", "        counts[i - start - 1] = c\n", "break"),
  ("C01ptr", "data/relationships.py", "        row_sizes[np.asarray(rsz_nums) + 1] = rsz_counts", "        row_sizes[np.asarray(rsz_nums)] = rsz_counts", "break"),
  ("C01ptr", "data/relationships.py", "        table = table.sort_by([(c, \"ascending\") for c in e_cols])\n", "", "break"),
  ("C19lin", "stochastic/_ranker.py", "                if r > 0:\n                    scores /= r", "                if r > np.finfo(scores.dtype).eps:\n                    scores /= r", "break"),
